@@ -126,7 +126,11 @@ func buildRRset(keys []*Key, zsk *Key, st *Step, now time.Time) ([]dns.RR, error
 		if sp.Mode == "partial" {
 			// a signature that covers the RRset without its first key: it does
 			// not authenticate the set actually served
-			signed = set[1:]
+			if len(set) > 1 {
+				signed = set[1:]
+			} else {
+				signed = []dns.RR{zsk.RR(flagKSK)}
+			}
 		}
 		cp := make([]dns.RR, len(signed))
 		for i, rr := range signed {
@@ -300,9 +304,18 @@ func childMain(jobPath string) int {
 			rk, nn := r1.VerifC09RootKeys()
 			post.Live, post.LiveNil = ix.obsRRs(rk), !nn
 			post.HasTA = r1.VerifC09HasTrustAnchors()
+			post.Queries = int(script.queries.Load())
+			post.After = readDisk(job.Dir, ix)
+			// one more tick in the same process, fetch refused
+			script.set("refused", nil)
+			r1.AutoTA()
+			rk, nn = r1.VerifC09RootKeys()
+			post.Follow, post.FollowNil, post.FollowRan = ix.obsRRs(rk), !nn, true
 		}()
-		post.Queries = int(script.queries.Load())
-		post.After = readDisk(job.Dir, ix)
+		if post.After == nil {
+			post.Queries = int(script.queries.Load())
+			post.After = readDisk(job.Dir, ix)
+		}
 		post.RealNano = int64(time.Since(t0))
 		if undo != nil {
 			if err := undo(); err != nil {
